@@ -1,6 +1,6 @@
 SPECIFICATION MSpec
 CONSTANTS
-  Vouchers = {"va", "vb"}
+  Vouchers = {"va", "vb", "vc"}
   AmtClasses = {"1", "2", "zero", "garbage", "neg"}
   RecvClasses = {"user", "invalid", "blocked"}
   HookReturnsAck = TRUE
